@@ -4,6 +4,7 @@
 //                 C <hex codepoint>                 -> canTranscodeTo
 //   enumeration:  hx_utf8 enum <space> [digest]   (see tools/props/c05.py)
 #include "hx_common.hpp"
+#include <map>
 #include <xercesc/util/TransService.hpp>
 #include <xercesc/util/XMLUTF8Transcoder.hpp>
 #include <xercesc/util/UTFDataFormatException.hpp>
@@ -20,8 +21,23 @@ static const char* excName(const XMLException& e) {
         case XMLExcepts::UTF8_Exceeds_BytesLimit: return "UTF8_Exceeds_BytesLimit";
         case XMLExcepts::Trans_BadSrcSeq: return "Trans_BadSrcSeq";
         case XMLExcepts::Trans_Unrepresentable: return "Trans_Unrepresentable";
+        case XMLExcepts::Trans_BadTrailingSurrogate: return "Trans_BadTrailingSurrogate";
         default: return "OTHER";
     }
+}
+
+static std::map<std::string, XMLTranscoder*> gByName;
+static XMLTranscoder* tcFor(const std::string& enc) {
+    auto it = gByName.find(enc);
+    if (it != gByName.end()) return it->second;
+    // the model names the byte order explicitly; map to the names the service knows
+    std::string real = enc;
+    if (enc == "UCS-4LE") real = "UCS-4 (LE)"; else if (enc == "UCS-4BE") real = "UCS-4 (BE)";
+    else if (enc == "UTF-16LE") real = "UTF-16 (LE)"; else if (enc == "UTF-16BE") real = "UTF-16 (BE)";
+    XMLTransService::Codes rc;
+    XMLTranscoder* t = XMLPlatformUtils::fgTransService->makeNewTranscoderFor(real.c_str(), rc, 16 * 1024);
+    gByName[enc] = t;
+    return t;
 }
 
 static std::string doFrom(const std::vector<uint32_t>& bytes, size_t maxChars) {
@@ -70,6 +86,17 @@ int main(int argc, char** argv) {
             puts(doFrom(hx::parseHexList(f[2]), std::stoul(f[1])).c_str());
         } else if (f[0] == "T" && f.size() == 4) {
             puts(doTo(hx::parseHexList(f[3]), std::stoul(f[1]), f[2] == "1").c_str());
+        } else if (f[0] == "GF" && f.size() == 4) {
+            XMLTranscoder* save = gT; gT = tcFor(f[1]);
+            puts(gT ? doFrom(hx::parseHexList(f[3]), std::stoul(f[2])).c_str() : "no-transcoder");
+            gT = save;
+        } else if (f[0] == "GT" && f.size() == 5) {
+            XMLTranscoder* save = gT; gT = tcFor(f[1]);
+            puts(gT ? doTo(hx::parseHexList(f[4]), std::stoul(f[2]), f[3] == "1").c_str() : "no-transcoder");
+            gT = save;
+        } else if (f[0] == "GC" && f.size() == 3) {
+            XMLTranscoder* t = tcFor(f[1]);
+            puts(!t ? "no-transcoder" : t->canTranscodeTo((unsigned)std::stoul(f[2], 0, 16)) ? "1" : "0");
         } else if (f[0] == "C" && f.size() == 2) {
             puts(gT->canTranscodeTo((unsigned)std::stoul(f[1], 0, 16)) ? "1" : "0");
         } else puts("bad-op");
